@@ -16,7 +16,7 @@ from concurrent.futures import ThreadPoolExecutor
 
 VERIF = os.path.dirname(os.path.dirname(os.path.abspath(__file__)))
 OFIR_DUMP = os.path.join(VERIF, 'build', 'ofir-dump')
-CACHE = os.path.join(VERIF, '.cache')
+CACHE = os.environ.get('OFVERIF_CACHE') or os.path.join(VERIF, '.cache')
 
 
 class AnalysisBroken(Exception):
@@ -186,8 +186,10 @@ def _prune_cache(keep):
         ds = [os.path.join(CACHE, d) for d in os.listdir(CACHE)]
         ds = [d for d in ds if os.path.isdir(d)]
         ds.sort(key=lambda d: os.path.getmtime(d), reverse=True)
+        import time
         for d in ds[keep:]:
-            shutil.rmtree(d, ignore_errors=True)
+            if time.time() - os.path.getmtime(d) > 1800:    # never prune what a concurrent run may be using
+                shutil.rmtree(d, ignore_errors=True)
     except OSError:
         pass
 
